@@ -62,6 +62,10 @@ func traverse(context Context, matchingNode *CandidateNode, operation *Operation
 
 	case AliasNode:
 		log.Debug("its an alias!")
+		if matchingNode.Alias == nil {
+			// an alias set by name (alias = "x") has no target to traverse into
+			return list.New(), nil
+		}
 		matchingNode = matchingNode.Alias
 		return traverse(context, matchingNode, operation)
 	default:
@@ -136,6 +140,10 @@ func traverseArrayIndices(context Context, matchingNode *CandidateNode, indicesT
 	}
 
 	if matchingNode.Kind == AliasNode {
+		if matchingNode.Alias == nil {
+			// an alias set by name (alias = "x") has no target to traverse into
+			return list.New(), nil
+		}
 		matchingNode = matchingNode.Alias
 		return traverseArrayIndices(context, matchingNode, indicesToTraverse, prefs)
 	} else if matchingNode.Kind == SequenceNode {
@@ -294,6 +302,9 @@ func doTraverseMap(newMatches *orderedmap.OrderedMap, node *CandidateNode, wante
 func traverseMergeAnchor(newMatches *orderedmap.OrderedMap, value *CandidateNode, wantedKey string, prefs traversePreferences, splat bool) error {
 	switch value.Kind {
 	case AliasNode:
+		if value.Alias == nil {
+			return fmt.Errorf("cannot use alias *%v as a merge anchor, it has no target", value.Value)
+		}
 		if value.Alias.Kind != MappingNode {
 			return fmt.Errorf("can only use merge anchors with maps (!!map), but got %v", value.Alias.Tag)
 		}
